@@ -5,9 +5,11 @@ package main
 
 import (
 	"fmt"
+	"go/constant"
 	"go/token"
 	"go/types"
 	"sort"
+	"strconv"
 	"strings"
 
 	"golang.org/x/tools/go/ssa"
@@ -90,6 +92,12 @@ func symExprB(v ssa.Value, depth int, bind map[*ssa.Parameter]string) string {
 		return x.String()
 	case *ssa.UnOp:
 		if x.Op == token.MUL {
+			// a byte-array variable that is initialised from constants and never written again reads as that constant
+			if g, ok := x.X.(*ssa.Global); ok {
+				if bs, ok := constGlobalBytes(g); ok {
+					return strconv.Quote(bs)
+				}
+			}
 			return "load(" + symExpr(x.X, d) + ")"
 		}
 		return x.Op.String() + symExpr(x.X, d)
@@ -286,4 +294,103 @@ func storeFreeBlock(b *ssa.BasicBlock) bool {
 		}
 	}
 	return true
+}
+
+var constGlobalMemo = map[*ssa.Global]*string{}
+
+// constGlobalBytes: g is a package-level [n]byte variable of the universe whose elements are all set from constants in
+// the package initialiser and that no other instruction of the universe mentions except to load it.
+func constGlobalBytes(g *ssa.Global) (string, bool) {
+	if v, ok := constGlobalMemo[g]; ok {
+		if v == nil {
+			return "", false
+		}
+		return *v, true
+	}
+	constGlobalMemo[g] = nil
+	pt, ok := g.Type().(*types.Pointer)
+	if !ok {
+		return "", false
+	}
+	at, ok := pt.Elem().Underlying().(*types.Array)
+	if !ok || at.Len() == 0 || at.Len() > 16 {
+		return "", false
+	}
+	if bt, ok := at.Elem().Underlying().(*types.Basic); !ok || bt.Kind() != types.Uint8 {
+		return "", false
+	}
+	if symU == nil || g.Pkg == nil {
+		return "", false
+	}
+	out := make([]byte, at.Len())
+	set := make([]bool, at.Len())
+	initFn := g.Pkg.Func("init")
+	okAll := true
+	scan := func(f *ssa.Function, isInit bool) {
+		for _, b := range f.Blocks {
+			for _, ins := range b.Instrs {
+				for _, op := range ins.Operands(nil) {
+					if op == nil || *op != ssa.Value(g) {
+						continue
+					}
+					switch x := ins.(type) {
+					case *ssa.UnOp:
+						if x.Op != token.MUL {
+							okAll = false
+						}
+					case *ssa.IndexAddr:
+						// in init: the element stores; elsewhere only loads of elements
+						k, isK := x.Index.(*ssa.Const)
+						for _, ref := range *x.Referrers() {
+							switch y := ref.(type) {
+							case *ssa.Store:
+								c, isC := y.Val.(*ssa.Const)
+								if !isInit || !isK || !isC || k.Value == nil || c.Value == nil || y.Addr != ssa.Value(x) {
+									okAll = false
+									continue
+								}
+								i, _ := constant.Int64Val(k.Value)
+								v, _ := constant.Int64Val(c.Value)
+								if i < 0 || i >= int64(len(out)) {
+									okAll = false
+									continue
+								}
+								out[i], set[i] = byte(v), true
+							case *ssa.UnOp:
+								if y.Op != token.MUL {
+									okAll = false
+								}
+							default:
+								okAll = false
+							}
+						}
+					case *ssa.Store:
+						// whole-array store of a constant composite is not produced by go/ssa for arrays; anything else is a write
+						okAll = false
+					default:
+						okAll = false
+					}
+				}
+			}
+		}
+	}
+	if initFn != nil {
+		scan(initFn, true)
+	}
+	for _, f := range symU.Funcs {
+		if f != initFn {
+			scan(f, false)
+		}
+	}
+	for _, s := range set {
+		if !s {
+			okAll = false
+		}
+	}
+	if !okAll {
+		return "", false
+	}
+	str := string(out)
+	constGlobalMemo[g] = &str
+	return str, true
 }
